@@ -171,3 +171,5 @@ func liftX(x *big.Int) (*big.Int, bool) {
 	}
 	return y, true
 }
+
+func curveNMinus1() *big.Int { return new(big.Int).Sub(curveN, big.NewInt(1)) }
